@@ -200,10 +200,25 @@ func runC14(w *World, r *Report) {
 					}
 				case *ssa.Call:
 					// atomic / other mutators applied to a global's address
-					for _, a := range x.Call.Args {
-						if g := globalRoot(a); g != nil && w.isModPkg(g.Pkg.Pkg) {
+					for ai, a := range x.Call.Args {
+						if g := globalRootVia(a); g != nil && w.isModPkg(g.Pkg.Pkg) {
+							name := g.Pkg.Pkg.Name() + "." + g.Name()
+							// a callee that fills the memory an argument points to (binary.Read's data pointer, a reader's
+							// destination, the destination of copy) stores into the variable
+							if b, ok := x.Call.Value.(*ssa.Builtin); ok && b.Name() == "copy" && ai == 0 {
+								viol[name] = append(viol[name], gviol{x.Pos(), "copy into " + describeAddr(a), ssaFuncKey(w, fn)})
+								continue
+							}
 							if cf := x.Call.StaticCallee(); cf != nil {
-								name := g.Pkg.Pkg.Name() + "." + g.Name()
+								if wa, ok := fillsArgument[fnName(cf)]; ok && wa == ai {
+									viol[name] = append(viol[name], gviol{x.Pos(), "its address is handed to " + fnName(cf) + ", which stores the bytes it reads there", ssaFuncKey(w, fn)})
+									continue
+								}
+							}
+							if globalRoot(a) == nil {
+								continue
+							}
+							if cf := x.Call.StaticCallee(); cf != nil {
 								if fnName(cf) == "sync/atomic.AddUint32" && name == "common.messageXid" {
 									continue // the counter: covered by the atomic rule
 								}
@@ -328,6 +343,36 @@ func globalRoot(v ssa.Value) *ssa.Global {
 			v = x.X
 		default:
 			return nil
+		}
+	}
+	return nil
+}
+
+// fillsArgument: standard-library functions that write through one of their arguments (index in the SSA
+// argument list, receiver = 0 for methods).
+var fillsArgument = map[string]int{
+	"encoding/binary.Read":    2,
+	"(*bytes.Buffer).Read":    1,
+	"(*bytes.Reader).Read":    1,
+	"io.ReadFull":             1,
+	"io.ReadAtLeast":          1,
+	"(*bufio.Reader).Read":    1,
+	"encoding/json.Unmarshal": 1,
+}
+
+// globalRootVia is globalRoot seen through the conversions an argument goes through on its way into a
+// call: boxed into an interface, re-typed, or sliced (an array variable passed as arr[:]).
+func globalRootVia(v ssa.Value) *ssa.Global {
+	for i := 0; i < 20; i++ {
+		switch x := v.(type) {
+		case *ssa.MakeInterface:
+			v = x.X
+		case *ssa.ChangeType:
+			v = x.X
+		case *ssa.Slice:
+			v = x.X
+		default:
+			return globalRoot(v)
 		}
 	}
 	return nil
